@@ -331,23 +331,32 @@ fn exec_ma(form: &str, p: &mut P) -> String {
     match ma { Some(ma) => format!("ok bytes={} e={}", hx(&ma.to_bytes()), ma_entries(&ma)), None => "err".into() }
 }
 
-struct MintOp { add: bool, script: NativeScript, src_ref: Option<TransactionInput>, name: Vec<u8>, amount: Int }
+struct MintOp { add: bool, native: Option<NativeScript>, plutus: Option<PlutusScript>, src_ref: Option<TransactionInput>, name: Vec<u8>, amount: Int }
 fn read_mint_ops(p: &mut P) -> Vec<MintOp> {
     (0..p.count()).map(|_| {
-        let add = p.next() == "a"; let script = NativeScript::from_bytes(p.bytes()).unwrap(); let _policy = p.next();
+        let add = p.next() == "a"; let sbytes = p.bytes(); let _policy = p.next();
         let src = p.next(); let rh = p.next(); let ri = p.u64();
+        let (native, plutus) = if src.starts_with('p') { (None, Some(PlutusScript::new_with_version(sbytes, &lang(src[1..].parse().unwrap())))) }
+                               else { (Some(NativeScript::from_bytes(sbytes).unwrap()), None) };
         let src_ref = if src == "r" { Some(TransactionInput::new(&TransactionHash::from_bytes(unhex_or_dash(rh)).unwrap(), ri as u32)) } else { None };
         let name = p.bytes(); let amount = Int::from_str(p.next()).unwrap();
-        MintOp { add, script, src_ref, name, amount }
+        MintOp { add, native, plutus, src_ref, name, amount }
     }).collect()
 }
 fn native_source(script: &NativeScript, r: &Option<TransactionInput>) -> NativeScriptSource {
     match r { None => NativeScriptSource::new(script), Some(i) => NativeScriptSource::new_ref_input(&script.hash(), i, script.to_bytes().len()) }
 }
+fn redeemer(tag: &RedeemerTag) -> Redeemer {
+    Redeemer::new(tag, &BigNum::zero(), &PlutusData::new_integer(&BigInt::from_str("7").unwrap()), &ExUnits::new(&BigNum::from(1000u64), &BigNum::from(1000u64)))
+}
 fn mint_builder(ops: &[MintOp]) -> MintBuilder {
     let mut mb = MintBuilder::new();
     for o in ops {
-        let w = MintWitness::new_native_script(&native_source(&o.script, &o.src_ref));
+        let w = match (&o.native, &o.plutus) {
+            (Some(ns), _) => MintWitness::new_native_script(&native_source(ns, &o.src_ref)),
+            (_, Some(ps)) => MintWitness::new_plutus_script(&PlutusScriptSource::new(ps), &redeemer(&RedeemerTag::new_mint())),
+            _ => unreachable!(),
+        };
         let _ = if o.add { mb.add_asset(&w, &aname(&o.name), &o.amount) } else { mb.set_asset(&w, &aname(&o.name), &o.amount) };
     }
     mb
@@ -393,7 +402,6 @@ fn make_builder(toks: &[String]) -> TransactionBuilder {
         let r = if src == "r" { Some(TransactionInput::new(&TransactionHash::from_bytes(unhex_or_dash(rh)).unwrap(), ri as u32)) } else { None };
         ins.add_native_script_input(&native_source(&script, &r), &input, &ada(3_000_000));
     }
-    tb.set_inputs(&ins);
     tb.set_collateral(&coll);
     p.expect("RE");
     for _ in 0..p.count() { let i = read_txin(&mut p); let size = p.u64(); if size == 0 { tb.add_reference_input(&i); } else { tb.add_script_reference_input(&i, size as usize); } }
@@ -403,6 +411,26 @@ fn make_builder(toks: &[String]) -> TransactionBuilder {
     if p.peek() == "~" { p.next(); } else { let ops = read_mint_ops(&mut p); tb.set_mint_builder(&mint_builder(&ops)); }
     p.expect("XD");
     for _ in 0..p.count() { tb.add_extra_witness_datum(&datum_of(p.next())); }
+    // optional sections: Plutus witnesses (witness-script sources) on inputs, withdrawals and certificates
+    let pwit = |p: &mut P, tag: RedeemerTag| -> PlutusWitness {
+        let l = p.u64(); let script = PlutusScript::new_with_version(p.bytes(), &lang(l)); let d = p.next();
+        if d == "~" { PlutusWitness::new_without_datum(&script, &redeemer(&tag)) } else { PlutusWitness::new(&script, &datum_of(d), &redeemer(&tag)) }
+    };
+    if p.i < toks.len() && p.peek() == "PI" { p.next();
+        for _ in 0..p.count() { let w = pwit(&mut p, RedeemerTag::new_spend()); let input = read_txin(&mut p); ins.add_plutus_script_input(&w, &input, &ada(4_000_000)); } }
+    if p.i < toks.len() && p.peek() == "PW" { p.next(); let mut wb = WithdrawalsBuilder::new();
+        for _ in 0..p.count() { let w = pwit(&mut p, RedeemerTag::new_reward());
+            let addr = RewardAddress::new(0, &Credential::from_scripthash(&w.script().unwrap().hash()));
+            wb.add_with_plutus_witness(&addr, &BigNum::from(1_000_000u64), &w).expect("withdrawal"); }
+        tb.set_withdrawals_builder(&wb); }
+    if p.i < toks.len() && p.peek() == "PC" { p.next(); let mut cb = CertificatesBuilder::new();
+        for _ in 0..p.count() { let w = pwit(&mut p, RedeemerTag::new_cert()); let kind = p.u64();
+            let cred = Credential::from_scripthash(&w.script().unwrap().hash());
+            let cert = if kind == 0 { Certificate::new_stake_deregistration(&StakeDeregistration::new(&cred)) }
+                       else { Certificate::new_vote_delegation(&VoteDelegation::new(&cred, &DRep::new_always_abstain())) };
+            cb.add_with_plutus_witness(&cert, &w).expect("certificate"); }
+        tb.set_certs_builder(&cb); }
+    tb.set_inputs(&ins);
     tb.add_output(&TransactionOutput::new(&EnterpriseAddress::new(0, &Credential::from_keyhash(&keyhash(1, 22))).to_address(), &ada(2_000_000))).unwrap();
     tb.set_fee(&BigNum::from(250_000u64));
     tb
@@ -421,14 +449,25 @@ fn exec_tx(toks: &[String], second_process: bool) -> String {
         let out = std::process::Command::new(std::env::current_exe().unwrap()).arg("one").args(toks).output().expect("second process");
         det &= String::from_utf8_lossy(&out.stdout).trim() == hex::encode(&bytes);
     }
-    let body = tx.body(); let ws = tx.witness_set();
+    let body = tx.body();
+    // what is judged is the EMITTED witness set: its bytes decoded again
+    let ws = match TransactionWitnessSet::from_bytes(tx.witness_set().to_bytes()) { Ok(w) => w, Err(_) => return "ok undecodable-witness-set".into() };
     let sig = match body.required_signers() { None => "-".into(), Some(s) => csv(&(0..s.len()).map(|i| hx(&bstr(&s.get(i).to_bytes()))).collect::<Vec<_>>()) };
     let mut ns: Vec<String> = ws.native_scripts().map(|v| (0..v.len()).map(|i| hx(&v.get(i).to_bytes())).collect()).unwrap_or_default();
     ns.sort();
-    let pd: Vec<String> = ws.plutus_data().map(|v| (0..v.len()).map(|i| hx(&v.get(i).to_bytes())).collect()).unwrap_or_default();
-    format!("ok ins={} coll={} refs={} sig={} mint={} ns={} pd={} det={}",
+    let mut pd: Vec<String> = ws.plutus_data().map(|v| (0..v.len()).map(|i| hx(&v.get(i).to_bytes())).collect()).unwrap_or_default();
+    pd.sort();
+    let mut ps: Vec<String> = Vec::new();
+    if let Some(v) = ws.plutus_scripts() {
+        for (k, l) in [(3u32, LanguageKind::PlutusV1), (6, LanguageKind::PlutusV2), (7, LanguageKind::PlutusV3)] {
+            let mut els: Vec<String> = (0..v.len()).filter(|i| v.get(*i).language_version().kind() == l).map(|i| hx(&bstr(&v.get(i).bytes()))).collect();
+            els.sort();
+            if !els.is_empty() { ps.push(format!("{}:{}", k, els.join(","))); }
+        }
+    }
+    format!("ok ins={} coll={} refs={} sig={} mint={} ns={} ps={} pd={} det={}",
         txins_str(Some(body.inputs())), txins_str(body.collateral()), txins_str(body.reference_inputs()), sig,
-        body.mint().map(|m| hx(&m.to_bytes())).unwrap_or("~".into()), csv(&ns), csv(&pd), if det { 1 } else { 0 })
+        body.mint().map(|m| hx(&m.to_bytes())).unwrap_or("~".into()), csv(&ns), if ps.is_empty() { "-".into() } else { ps.join(";") }, csv(&pd), if det { 1 } else { 0 })
 }
 
 fn exec(toks: &[String]) -> String {
@@ -617,7 +656,14 @@ fn gen_mint_ops(r: &mut Rng, n: usize, allow_ref: bool) -> String {
     for _ in 0..n {
         let sid = r.below(4); let script = native_script(sid);
         // a script id keeps one source kind (the builder refuses to mix them)
-        let (src, rh, ri) = if allow_ref && sid % 2 == 1 { ("r", hx(&fill(sid, 60, 32)), sid) } else { ("w", "-".to_string(), 0) };
+        let (src, rh, ri) = if allow_ref && sid % 2 == 1 { ("r".to_string(), hx(&fill(sid, 60, 32)), sid) } else { ("w".to_string(), "-".to_string(), 0) };
+        // a Plutus minting policy (witness script; the same scripts the Plutus inputs use)
+        if r.chance(1, 5) {
+            let (l, sb) = plutus_script(r.below(3)); let ps = PlutusScript::new_with_version(sb.clone(), &lang(l));
+            let amt = { let a = gen_amount(r); if a == 0 { 3 } else { a } };
+            s += &format!(" {} {} {} p{} - 0 {} {}", if r.chance(3, 4) { "a" } else { "s" }, hx(&sb), hx(&ps.hash().to_bytes()), l, hx(r.pick(&names).as_slice()), amt);
+            continue;
+        }
         let amt = if r.chance(1, 6) { -gen_amount(r).abs().min(5) } else { gen_amount(r) };
         s += &format!(" {} {} {} {} {} {} {} {}", if r.chance(3, 4) { "a" } else { "s" }, hx(&script.to_bytes()), hx(&script.hash().to_bytes()), src, rh, ri, hx(r.pick(&names).as_slice()), amt);
     }
@@ -634,6 +680,8 @@ fn gen_mint(r: &mut Rng, out: &mut Out, thorough: bool) {
     let toks: Vec<String> = line.split_whitespace().map(|s| s.to_string()).collect();
     out.emit(&line, &guarded(move || exec(&toks)));
 }
+/// a small pool of Plutus scripts: (language, bytes); ids 0 and 1 share the bytes under different languages
+fn plutus_script(id: u64) -> (u64, Vec<u8>) { match id { 0 => (2, fill(0, 40, 9)), 1 => (3, fill(0, 40, 9)), _ => (1, fill(2, 40, 7)) } }
 fn gen_txin(r: &mut Rng, pool: u64) -> String { let id = r.below(pool); format!("{} {}", hx(&fill(id, 70, 32)), (id % 3) + r.below(2)) }
 fn gen_tx(r: &mut Rng, out: &mut Out, thorough: bool) {
     for _ in 0..(if thorough { 1000 } else { 250 }) {
@@ -652,6 +700,18 @@ fn gen_tx(r: &mut Rng, out: &mut Out, thorough: bool) {
         let ng = r.below(6); line += &format!(" G {}", ng); for _ in 0..ng { line += &format!(" {}", hx(&bstr(&keyhash(r.below(4), 80).to_bytes()))); }
         if r.chance(1, 2) { line += " M ~"; } else { let k = r.range(1, 5) as usize; line += &format!(" M {}", gen_mint_ops(r, k, true)); }
         let nx = r.below(5); line += &format!(" XD {}", nx); for _ in 0..nx { line += &format!(" {}", gen_datum(r)); }
+        // Plutus witnesses: inputs (distinct inputs; scripts and datums shared between items and with the extra datums),
+        // withdrawals (one per script) and certificates (distinct (script, kind) pairs)
+        if r.chance(2, 3) {
+            let np = r.range(1, 4); line += &format!(" PI {}", np);
+            for k in 0..np { let (l, sb) = plutus_script(r.below(3)); let d = if r.chance(1, 5) { "~".to_string() } else { gen_datum(r) };
+                line += &format!(" {} {} {} {} {}", l, hx(&sb), d, hx(&fill(k, 71, 32)), 50 + k); }
+            if r.chance(1, 3) { let ids: Vec<u64> = (0..3).filter(|_| r.chance(1, 2)).collect(); line += &format!(" PW {}", ids.len());
+                for id in ids { let (l, sb) = plutus_script(id); let d = if r.chance(2, 3) { "~".to_string() } else { gen_datum(r) }; line += &format!(" {} {} {}", l, hx(&sb), d); } }
+            if r.chance(1, 3) { let mut pairs: Vec<(u64, u64)> = Vec::new(); for id in 0..3 { for k in 0..2 { if r.chance(1, 3) { pairs.push((id, k)); } } }
+                line += &format!(" PC {}", pairs.len());
+                for (id, k) in pairs { let (l, sb) = plutus_script(id); let d = if r.chance(2, 3) { "~".to_string() } else { gen_datum(r) }; line += &format!(" {} {} {} {}", l, hx(&sb), d, k); } }
+        }
         let toks: Vec<String> = line.split_whitespace().map(|s| s.to_string()).collect();
         out.emit(&line, &guarded(move || exec(&toks)));
     }
